@@ -77,6 +77,85 @@ def witnesses(rep):
                      site="witness/src/lib.rs")
 
 
+def control_patches(pid):
+    """(path, kind) of the stored changes that exercise property `pid`: mutants / seeds that must make its check
+    fire, behaviour-preserving edits that must leave it silent."""
+    import glob
+    import json
+    out = []
+    for p in sorted(glob.glob(os.path.join(facts.VERIF, "selftest", "mutants", "*.diff"))):
+        m = re.search(r"^# expect: (.*)$", open(p).read(), re.M)
+        if m and pid in m.group(1).split():
+            out.append((p, "must-fire"))
+    for p in sorted(glob.glob(os.path.join(facts.VERIF, "seeded", "*", "patch.diff"))):
+        try:
+            meta = json.load(open(os.path.join(os.path.dirname(p), "meta.json")))
+        except (OSError, ValueError):
+            continue
+        if pid in meta.get("expect_checks", [meta.get("property")]):
+            out.append((p, "must-fire"))
+    for p in sorted(glob.glob(os.path.join(facts.VERIF, "selftest", "preserving", "*.diff"))):
+        out.append((p, "must-stay-silent"))
+    return out
+
+
+def controls(rep):
+    """Liveness controls: the property's check is run (quick tier) on scratch worktrees of /repo's HEAD carrying one
+    stored change each.  This tests the checker, not the tree: a misbehaving control is CHECK-BROKEN, never a violation."""
+    import tempfile
+    import shutil
+    if os.environ.get("ZKV_NO_CONTROLS") or rep.findings:
+        return
+    repo = getattr(rep.prog, "repo", facts.REPO)
+    pats = control_patches(rep.pid)
+    res = []
+    evid = tempfile.mkdtemp(prefix="zkv-ctl-evid-")
+    try:
+        for p, kind in pats:
+            name = os.path.relpath(p, facts.VERIF)
+            wt = tempfile.mkdtemp(prefix="zkv-ctl-")
+            os.rmdir(wt)
+            r = subprocess.run(["git", "-C", repo, "worktree", "add", "--detach", wt, "HEAD"], capture_output=True, text=True)
+            if r.returncode:
+                res.append({"patch": name, "kind": kind, "result": "skipped: no scratch worktree (%s)" % r.stderr.strip()[:80]})
+                continue
+            try:
+                r = subprocess.run(["git", "-C", wt, "apply", "--whitespace=nowarn", p], capture_output=True, text=True)
+                if r.returncode:
+                    res.append({"patch": name, "kind": kind, "result": "skipped: does not apply to the current HEAD"})
+                    continue
+                r = subprocess.run([os.path.join(facts.VERIF, "check"), rep.pid, "--tier", "quick", "--repo", wt], cwd=facts.VERIF,
+                                   capture_output=True, text=True, env=dict(os.environ, ZKV_EVID_DIR=evid, ZKV_NO_CONTROLS="1"))
+                if "fact extraction failed" in (r.stdout + r.stderr):
+                    res.append({"patch": name, "kind": kind, "result": "skipped: variant does not compile on this HEAD"})
+                    continue
+                fired = r.returncode == 1 and "VIOLATION property=%s" % rep.pid in r.stdout
+                silent = r.returncode == 0
+                if kind == "must-fire":
+                    okc = fired
+                else:
+                    okc = silent
+                what = "fired" if fired else ("silent" if silent else "exit %d" % r.returncode)
+                first = ""
+                if fired:
+                    for line in r.stdout.splitlines():
+                        if line.startswith("  rule="):
+                            first = line.strip()[:160]
+                            break
+                res.append({"patch": name, "kind": kind, "result": what, "as_expected": okc, "first_report": first})
+                if not okc:
+                    rep.broken.append("control %s (%s) -> %s" % (name, kind, what))
+            finally:
+                subprocess.run(["git", "-C", repo, "worktree", "remove", "--force", wt], capture_output=True)
+                shutil.rmtree(wt, ignore_errors=True)
+    finally:
+        shutil.rmtree(evid, ignore_errors=True)
+    rep.extra["controls"] = res
+    rep.extra["controls_summary"] = "%d stored changes exercised: %d behaved as expected, %d skipped" % (
+        len(res), sum(1 for x in res if x.get("as_expected")), sum(1 for x in res if x["result"].startswith("skipped")))
+
+
 def run(rep):
     config_agreement(rep)
     witnesses(rep)
+    controls(rep)
